@@ -2,6 +2,7 @@ package regexp2
 
 import (
 	"errors"
+	"slices"
 	"strings"
 	"unicode/utf8"
 
@@ -34,6 +35,15 @@ func newStringPrefixFilter(code *syntax.Code) StringPrefixFilter {
 
 	opts := code.FindOptimizations
 	minRequiredLength := opts.MinRequiredLength
+
+	// A U+FFFD in the pattern also matches every invalid UTF-8 byte of the input (each
+	// decodes to U+FFFD), which a byte-wise search for its three-byte encoding would miss.
+	if strings.ContainsRune(opts.LeadingPrefix, utf8.RuneError) ||
+		strings.ContainsRune(opts.FixedDistanceLiteral.S, utf8.RuneError) ||
+		(opts.LiteralAfterLoop != nil && strings.ContainsRune(opts.LiteralAfterLoop.String, utf8.RuneError)) ||
+		slices.ContainsFunc(opts.LeadingPrefixes, func(p string) bool { return strings.ContainsRune(p, utf8.RuneError) }) {
+		return nil
+	}
 
 	switch opts.FindMode {
 	case syntax.LeadingString_LeftToRight:
